@@ -771,6 +771,7 @@ def inlined(prog, f, **kw):
         g = Inliner(prog, **kw).inline(f)
         _lift_container_of(g, prog.records)
         _resolve_out_params(g)
+        _fold_constant_branches(g)
         lowered = _lower_cond_stores(g)
         if _forward_temp_copies(g) and kw.get('prune'):
             from ..analyses import prune_infeasible
@@ -778,7 +779,7 @@ def inlined(prog, f, **kw):
         # a flag fed by a flag (`alive = helper()` with a boolean helper; `b = a`) only becomes a constant-valued
         # local once the first one is eliminated: repeat the core's flag partitioning until nothing is left
         if os.environ.get('IVY_NO_FLAGS') != '1':
-            shadows = _null_shadow_insert(g, f)
+            shadows = _null_shadow_insert(g, f) + _counter_shadow_insert(g, f)
             for _ in range(8 if shadows else 3):
                 done = list(partition_flags(g))
                 for name in _copied_flags(g)[:4]:
@@ -795,11 +796,203 @@ def inlined(prog, f, **kw):
         if lowered and kw.get('prune'):
             from ..analyses import prune_infeasible
             prune_infeasible(g)
+        _fold_constant_branches(g)
         c[key] = g
     return c[key]
 
 
 NZ = '#nz'
+CTR = '#ctr'
+
+
+def _fold_constant_branches(g):
+    """A two-way branch whose condition is a comparison of constants (`NULL != NULL` after the inliner substituted the
+    constant argument of a shared helper: `drain(list, deliver_to = NULL)` ... `if (deliver_to != NULL) deliver_to->handler()`)
+    has one outcome: the other edge is removed, as analyses.prune_infeasible does for edges refuted by must-facts.  The code
+    behind it cannot run in this calling context.  Only comparisons / negations of literal constants are folded (a literal
+    `0` loop condition of `do { } while (0)` is left alone)."""
+    n = 0
+    for b, blk in g.blocks.items():
+        t = blk.term
+        if not t or t.get('cond') is None or len(blk.succ) != 2 or t.get('cls') in ('SwitchStmt', 'MethodDispatch'):
+            continue
+        c = strip(t['cond'])
+        while isinstance(c, dict) and c.get('k') == 'un' and c.get('op') == '!':
+            c = strip(c['e'])
+        if not (isinstance(c, dict) and c.get('k') == 'bin' and c.get('op') in ('==', '!=', '<', '>', '<=', '>=')):
+            continue
+        if not all(isinstance(strip(x), dict) and strip(x).get('k') in ('null', 'int') for x in (c['l'], c['r'])):
+            continue
+        v = aval(t['cond'], {})
+        if not isinstance(v, tuple):
+            continue
+        gone = 1 if v[1] else 0
+        blk.succ = [s_ for i, s_ in enumerate(blk.succ) if i != gone]
+        blk.term = dict(t, pruned=('true' if gone == 0 else 'false'), cls='Pruned')
+        blk.term.pop('cond', None)
+        n += 1
+    if n:
+        g._preds = None
+    return n
+
+
+def _counter_shadow_insert(g, root):
+    """Trace partitioning on "first iteration / later iteration" of a counted loop.  A local integer i that is only ever
+    assigned one constant c0 and otherwise only stepped in one direction (`i++`, `i += k`, k > 0; or only downwards) has
+    left c0 for good once it was stepped.  For such a counter a shadow integer `i#ctr` (0: i == c0, 1: stepped since) is
+    maintained, and every branch condition that compares i with a constant *and whose outcome is determined by the shadow
+    alone* (`i > 0`, `i != 0`, `i == 0`, `0 < i` for c0 = 0 counting up) is spelled with the shadow; the core's flag
+    partitioning then threads the test: `for (i = 0; i < n; i++) { if (i > 0 && marker == NULL) break; ... handler(); }`
+    becomes the peeled form in which the re-test of the marker follows every handler call.  The shadows are removed
+    afterwards (_null_shadow_remove): a refinement of the CFG with the original events and conditions."""
+    addr_taken, defs, bad = set(), {}, set()
+    rootparams = {p['name'] for p in root.params}
+    for b, blk in g.blocks.items():
+        srcs = list(blk.events)
+        for e in srcs:
+            for x in walk(e):
+                k = x.get('k')
+                if k == 'addr':
+                    v = strip(x['e'])
+                    if isinstance(v, dict) and v.get('k') == 'var':
+                        addr_taken.add(v['name'])
+                elif k in ('incdec', 'assign'):
+                    # stepped inside an expression: not followed
+                    for y in walk(x.get('e') if k == 'incdec' else x.get('l')):
+                        if y.get('k') == 'var':
+                            bad.add(y['name'])
+            if e['ev'] == 'store':
+                l = strip(e['lhs'])
+                if isinstance(l, dict) and l.get('k') == 'var' and l.get('vk') == 'local':
+                    defs.setdefault(l['name'], []).append(e)
+        if blk.term and blk.term.get('cond') is not None:
+            for x in walk(blk.term['cond']):
+                if x.get('k') in ('incdec', 'assign'):
+                    for y in walk(x.get('e') if x['k'] == 'incdec' else x.get('l')):
+                        if y.get('k') == 'var':
+                            bad.add(y['name'])
+
+    def classify(e, name):
+        """('init', c) | ('step', +1/-1) | None"""
+        op = e.get('op')
+        if op == '=' and 'rhs' in e:
+            c = const_of(e['rhs'])
+            if c is not None and isinstance(strip(e['rhs']), dict) and strip(e['rhs']).get('k') in ('int', 'un'):
+                return ('init', c)
+            r = strip(e['rhs'])
+            if isinstance(r, dict) and r.get('k') == 'bin' and r.get('op') in ('+', '-'):
+                k = const_of(r['r'])
+                if var_names(r['l']) == {name} and k is not None and k > 0:
+                    return ('step', 1 if r['op'] == '+' else -1)
+            return None
+        if op in ('++', '--') and 'rhs' not in e:
+            return ('step', 1 if op == '++' else -1)
+        if op in ('+=', '-=') and 'rhs' in e:
+            k = const_of(e['rhs'])
+            if k is not None and k > 0:
+                return ('step', 1 if op == '+=' else -1)
+        return None
+    cand = {}
+    for n, es in defs.items():
+        if n in addr_taken or n in bad or n in rootparams or NZ in n or CTR in n or n.startswith('$ret'):
+            continue
+        ks = [classify(e, n) for e in es]
+        if any(k is None for k in ks):
+            continue
+        inits = {k[1] for k in ks if k[0] == 'init'}
+        dirs = {k[1] for k in ks if k[0] == 'step'}
+        if len(inits) == 1 and len(dirs) == 1:
+            cand[n] = (inits.pop(), dirs.pop())
+    if not cand:
+        return 0
+
+    def decided(op, c, c0, d, state):
+        """truth of `i op c` when the shadow is `state` (None: not determined)"""
+        if state == 0:
+            return {'==': c0 == c, '!=': c0 != c, '<': c0 < c, '>': c0 > c, '<=': c0 <= c, '>=': c0 >= c}[op]
+        if d < 0:       # mirror: -i counts up from -c0
+            op = {'<': '>', '>': '<', '<=': '>=', '>=': '<='}.get(op, op)
+            c, c0 = -c, -c0
+        # i >= c0 + 1
+        if op == '>':
+            return True if c <= c0 else None
+        if op == '>=':
+            return True if c <= c0 + 1 else None
+        if op == '<':
+            return False if c <= c0 + 1 else None
+        if op == '<=':
+            return False if c <= c0 else None
+        if op == '==':
+            return False if c <= c0 else None
+        if op == '!=':
+            return True if c <= c0 else None
+        return None
+
+    def shadow(n):
+        return {'k': 'load', 'e': {'k': 'var', 'name': n + CTR, 'vk': 'local', 'type': 'int'}}
+    used = set()
+    SWAPOP = {'<': '>', '>': '<', '<=': '>=', '>=': '<=', '==': '==', '!=': '!='}
+
+    def rw(c):
+        c0_ = c
+        while isinstance(c, dict) and c.get('k') in ('load', 'cast', 'paren') and isinstance(c.get('e'), dict):
+            c = c['e']
+        if not isinstance(c, dict):
+            return None
+        k = c.get('k')
+        if k == 'un' and c.get('op') == '!':
+            a = rw(c['e'])
+            return None if a is None else dict(c, e=a)
+        if k == 'bin' and c.get('op') in ('&&', '||'):
+            a, b = rw(c['l']), rw(c['r'])
+            if a is None and b is None:
+                return None
+            return dict(c, l=a if a is not None else c['l'], r=b if b is not None else c['r'])
+        if k == 'bin' and c.get('op') in SWAPOP:
+            for (a, b, op) in ((c['l'], c['r'], c['op']), (c['r'], c['l'], SWAPOP[c['op']])):
+                sa = strip(a)
+                cv = const_of(b)
+                if is_localvar(sa) and sa['name'] in cand and cv is not None and not var_names(b):
+                    c0, d = cand[sa['name']]
+                    t0, t1 = decided(op, cv, c0, d, 0), decided(op, cv, c0, d, 1)
+                    if t0 is None or t1 is None or t0 == t1:
+                        return None
+                    used.add(sa['name'])
+                    return {'k': 'bin', 'op': '!=' if t1 else '==', 'l': shadow(sa['name']), 'r': {'k': 'int', 'v': 0},
+                            'type': 'int', '_orig': c0_}
+            return None
+        sa = strip(c0_)
+        if is_localvar(sa) and sa['name'] in cand and cand[sa['name']] in ((0, 1), (0, -1)):
+            used.add(sa['name'])      # `if (i)`
+            return {'k': 'bin', 'op': '!=', 'l': shadow(sa['name']), 'r': {'k': 'int', 'v': 0}, 'type': 'int', '_orig': c0_}
+        return None
+    newconds = {}
+    for b, blk in g.blocks.items():
+        if blk.term and blk.term.get('cond') is not None and len(blk.succ) == 2 and blk.term.get('cls') not in ('SwitchStmt', 'MethodDispatch'):
+            c = rw(blk.term['cond'])
+            if c is not None:
+                newconds[b] = c
+    if not used:
+        return 0
+    for b, c in newconds.items():
+        g.blocks[b].term = dict(g.blocks[b].term, cond=c)
+    for b, blk in g.blocks.items():
+        out = []
+        for e in blk.events:
+            out.append(e)
+            if e['ev'] == 'store':
+                l = strip(e['lhs'])
+                if isinstance(l, dict) and l.get('k') == 'var' and l['name'] in used and l.get('vk') == 'local':
+                    k = classify(e, l['name'])
+                    out.append({'ev': 'store', 'op': '=', 'lhs': {'k': 'var', 'name': l['name'] + CTR, 'vk': 'local', 'type': 'int'},
+                                'rhs': {'k': 'int', 'v': 0 if k[0] == 'init' else 1}, 'loc': e.get('loc', ''), 'used': False,
+                                'synthetic': True, 'shadow': True, 'fn': e.get('fn'), 'chain': e.get('chain')})
+        blk.events = out
+        for i, e in enumerate(blk.events):
+            e['_b'] = b
+            e['_i'] = i
+    g._preds = None
+    return len(used)
 
 
 def _null_shadow_insert(g, root):
